@@ -71,7 +71,7 @@ def _gd_post(c):
 
 contract(
     'signatures.SignatureInfo.get_default', F, 'SignatureInfo.get_default',
-    requires=_gd_req, ensures=_gd_post, allocates=True,
+    requires=_gd_req, ensures=_gd_post, allocates=False,
     props=('C01', 'C06', 'C20'),
     note='default of the parameter named / positioned by the argument; never raises',
 )
@@ -477,6 +477,8 @@ def _itk_post(c):
 contract(
     'signatures.SignatureInfo.index_to_key', F, 'SignatureInfo.index_to_key',
     requires=_itk_req, ensures=_itk_post, props=('C03',),
+    # the temporaries it allocates are unreachable garbage: callers see no allocation
+    allocates=False,
     raises={'IndexError': lambda c: _itk_terms(c)[5] < 0},
     note='key of list position index (negative indices normalised by the full view length); '
          'IndexError iff the normalised index is still negative',
